@@ -12,7 +12,7 @@
 
   OBLIGATIONS (audited by `check` with `#print axioms`):
     sequential_view, revert_on_end, revert_on_panic, revert_on_end_is_exit_restores, thread_independent, carried_frame_is_transparent, trace_tree,
-    driver_trace_tree, one_trace, one_traceL, one_trace_root, parent_is_enclosing, ids_resolveL, span_idsL,
+    driver_trace_tree, completion_carries_span_ids, one_trace, one_traceL, one_trace_root, parent_is_enclosing, ids_resolveL, span_idsL,
     ids_distinct, rng_zero_absent  (+ EmitModel.Span.runT_eq_spec, runL_eq_spec, spec_eq_ref, specL_eq_refL, current_push)
 -/
 import EmitModel.Lemmas.Span
@@ -303,6 +303,31 @@ theorem ids_resolveL (ts : List Tree) (tr sp pa : Option Nat) (hg : ∀ r ∈ si
         obtain ⟨h1, h2⟩ := ids_resolveL xs tr sp pa (fun r hr => hg r (by simp [hr])) r hr
         exact ⟨h1.imp_right (fun h => List.mem_append_right _ h), fun hs => (h2 hs).imp_right (fun h => List.mem_append_right _ h)⟩
 end
+
+/-- **completion_carries_span_ids.** A span's own completion event is emitted INSIDE its frame — by the guard's
+    drop (default completion, also while unwinding: panic completion) and by `complete_with` in the macro's
+    `Ok` / `Err` arms alike (macros/src/span.rs result_completion; macro_hooks.rs `__PrivateCompleteSpanOk` /
+    `__PrivateCompleteSpanErr` pass `rt.ctxt()` to `emit`), which is why the model has one completion step and no
+    exit-path parameter. So the completion record carries exactly the ids `SpanCtxt::current` reads at the end
+    of the body: the span's own trace id, parent and span id — the id its children and inner events refer to. -/
+theorem completion_carries_span_ids (amb : List (String × IdVal)) (id k : Nat) (rt rs : Option Nat)
+    (user : List (String × IdVal)) (children : List Tree) (hp : Span.panicsL children = false) :
+    ∃ x : Rec, x.kind = "c" ∧ x.tag = some k ∧
+      spec amb (.span id true rt rs user (children ++ [.cur k])) =
+        specL (insertAll amb (spanProps id user (newChild (current amb) rt rs))) children ++
+          [x, ⟨"s", pullNum (insertAll amb (spanProps id user (newChild (current amb) rt rs))) "id",
+               x.trace, x.parent, x.span⟩] := by
+  have happ : ∀ (a : List (String × IdVal)) (xs : List Tree), Span.panicsL xs = false →
+      specL a (xs ++ [.cur k]) = specL a xs ++ [recOf "c" (some k) a] := by
+    intro a xs
+    induction xs with
+    | nil => intro _; simp [specL, spec, Tree.panics]
+    | cons y ys ih =>
+      intro h
+      simp only [Span.panicsL, Bool.or_eq_false_iff] at h
+      simp [specL, h.1, ih h.2]
+  refine ⟨recOf "c" (some k) (insertAll amb (spanProps id user (newChild (current amb) rt rs))), rfl, rfl, ?_⟩
+  simp [spec, happ _ _ hp, recOf]
 
 /-- **driver_trace_tree.** What the driver computes for a case, end to end: the incoming props are pushed by an
     outer frame, the tree runs inside it on the C03 machine; for clean trees the records are the trace tree of
